@@ -442,9 +442,53 @@ def eof_kind_protocol(ctx, P):
             if any(has_origin(b.switch_origins(i), r'call:std::io::Error::kind$') for i, t in b.switches()):
                 consumers.append(p)
     extra = sorted(set(makers) - set(EOF_MAKERS))
-    ctx.check(P + ':eof-kind:makers-reviewed', 'R-who', 'io::ErrorKind::UnexpectedEof (read by the packet parser as a clean end of the stream) is constructed only by the %d reviewed functions' % len(EOF_MAKERS),
-              not extra and len(makers) >= 4 and bool(consumers), makers=makers, consumers=consumers,
-              missing=['%s (%s) constructs UnexpectedEof: a packet parser above it would end cleanly' % (p, makers[p]) for p in extra] or None)
+    if not consumers:
+        # no packet parser function branches on an error kind any more (see packet_stream_end_at_boundary): nothing reads the kind as an end
+        ctx.ok(P + ':eof-kind:makers-reviewed', 'R-who', 'no packet parser function interprets an io::ErrorKind as the end of the stream (%d makers of UnexpectedEof, none can be mistaken)' % len(makers),
+               makers=makers, consumers=consumers)
+    else:
+        ctx.check(P + ':eof-kind:makers-reviewed', 'R-who', 'io::ErrorKind::UnexpectedEof (read by the packet parser as a clean end of the stream) is constructed only by the %d reviewed functions' % len(EOF_MAKERS),
+                  not extra and len(makers) >= 4, makers=makers, consumers=consumers,
+                  missing=['%s (%s) constructs UnexpectedEof: a packet parser above it would end cleanly' % (p, makers[p]) for p in extra] or None)
+
+
+def packet_stream_end_at_boundary(ctx, P):
+    """A packet stream ends cleanly only BETWEEN two packets.  In the packet parser, a failure of `PacketHeader::try_from_reader`
+    (which has already consumed the first octet(s) of a header when it runs out of data) must never be turned into the end of the
+    iteration: no `None` result is reachable from the error arm of the header parse.  Otherwise 1..5 octets appended behind a
+    complete message - an incomplete header - are accepted as if nothing followed."""
+    from rules.common import enum_switch_info, edge_variants
+    n = 0
+    for p, r in sorted(ctx.f.bodies.items()):
+        if 'packet::many::PacketParser' not in p or r.get('derived') or '::tests::' in p:
+            continue
+        b = ctx.wrap(r)
+        cs = b.calls(r'packet::header::PacketHeader::try_from_reader$')
+        if not cs or not (b.r['locals'][0]['ty'] or '').startswith('std::option::Option<'):
+            ctx.functions.discard(p)
+            continue
+        none_st = b.stmts(lambda st: st['d']['l'] == 0 and not st['d']['pr'] and st['r']['k'] == 'agg' and st['r'].get('v') == 'None')
+        nones = set(i for i, k, st in none_st)
+        none_line = {i: st['ln'] for i, k, st in none_st}
+        for i, t in cs:
+            n += 1
+            res = t['d']['l']
+            err_starts = []
+            for j, tt in b.switches():
+                info = enum_switch_info(b, j)
+                if info is None or info[2]['l'] != res:
+                    continue
+                for tgt, _ in b.succ(j):
+                    vs = edge_variants(b, j, tgt) or []
+                    if 'Err' in vs and 'Ok' not in vs:
+                        err_starts.append(tgt)
+            reach = b.reach_from(err_starts) if err_starts else set()
+            leak = sorted(reach & nones)
+            ctx.check('%s:stream-end-at-boundary:%s' % (P, p), 'R-dom', 'a failed packet header parse in %s is reported, never read as the end of the packet stream' % p.split('::')[-1],
+                      bool(err_starts) and not leak, function=p, site=('%s:%d' % (b.r['file'], none_line[leak[0]])) if leak else site(b, i),
+                      missing=None if (err_starts and not leak) else ('the error arm of the header parse reaches `return None` at line %d: an incomplete header (appended octets, a cut stream) ends the stream cleanly'
+                                                                      % none_line[leak[0]] if leak else 'error arm of the header parse not found'))
+    ctx.floor(P + ':stream-end-at-boundary:floor', 'header parses in the packet parser', n, 3)
 
 
 EOF_HELPERS = r'types::packet::PacketLength::try_from_reader$|packet::header::PacketHeader::try_from_reader$|parsing_reader::BufReadParsing::(read_u8|read_be_u16|read_be_u32|read_le_u16|read_arr|read_arr_boxed|take_bytes|read_take)$'
